@@ -355,6 +355,34 @@ unsafe impl Send for Global {}
 static GLOBAL: OnceLock<Global> = OnceLock::new();
 static ABANDONED: CoreUsize = CoreUsize::new(0);
 static TAINTED: std::sync::atomic::AtomicBool = std::sync::atomic::AtomicBool::new(false);
+static CRASH_NOTE: Mutex<Option<std::fs::File>> = Mutex::new(None);
+
+/// The choice prefix of every execution is written to this file before the execution starts, so
+/// that the driver can name (and replay) the execution during which the process crashed.
+pub fn set_crash_note_file(path: &str) {
+    if let Ok(f) = std::fs::OpenOptions::new().create(true).write(true).truncate(true).open(path) {
+        *CRASH_NOTE.lock().unwrap() = Some(f);
+    }
+}
+
+fn crash_note(prefix: &[CP]) {
+    use std::io::{Seek, SeekFrom, Write};
+    if let Ok(mut g) = CRASH_NOTE.lock() {
+        if let Some(f) = g.as_mut() {
+            let mut line = String::with_capacity(prefix.len() * 3 + 2);
+            for (i, c) in prefix.iter().enumerate() {
+                if i > 0 {
+                    line.push(',');
+                }
+                line.push_str(&c.c.to_string());
+            }
+            line.push('\n');
+            let _ = f.seek(SeekFrom::Start(0));
+            let _ = f.write_all(line.as_bytes());
+            let _ = f.set_len(line.len() as u64);
+        }
+    }
+}
 
 /// True once an execution was given up in the middle of a panic. The panic machinery of the OS
 /// thread then still counts that panic as in flight, so any further panic in this process would
@@ -1700,6 +1728,7 @@ pub struct Stats {
 /// Runs one execution with the given choice prefix; entries beyond it are discovered.
 fn run_one(cfg: &Config, prefix: &[CP], body: &StdArc<dyn Fn() + Send + Sync>) -> (ExecResult, Vec<CP>) {
     install_panic_hook();
+    crash_note(prefix);
     assert!(current_tid().is_none(), "nested explorations are not supported");
     with(|st| {
         assert!(!st.running, "nested explorations are not supported");
